@@ -129,6 +129,13 @@ func specialKindCases(g *Gen, hostile, withSafeMessager bool) []*Case {
 		k := i
 		add("runtime.Error", func(toks *[]Token, strs *[]string) error { return runtimeError(k) })
 	}
+	add("net.OpError(src,dst)", func(toks *[]Token, strs *[]string) error {
+		// both addresses: "op net src->dst: err"
+		src := word() + tok('U', "net.OpError.Source", toks)
+		dst := word() + tok('U', "net.OpError.Addr", toks)
+		*strs = append(*strs, src, dst)
+		return &net.OpError{Op: "dial" + tok('S', "net.OpError.Op", toks), Net: "tcp", Source: strAddr{"tcp", src}, Addr: strAddr{"tcp", dst}, Err: errors.New("refused")}
+	})
 	for i := 0; i < 4; i++ {
 		variant := i
 		add("net.OpError", func(toks *[]Token, strs *[]string) error {
